@@ -238,6 +238,104 @@ pub fn encoding_of(case: &Case) -> Encoding {
     }
 }
 
+
+/// Direct calls of the public `Value` / `ValueType` API (what an embedding debugger may call on
+/// answers it builds itself): every method on a pair of values of any - also mismatched - types
+/// drawn from the boundary values of their type, under the address masks of the four address
+/// sizes. Only crash-freedom is demanded here (E3 compares results through the evaluator).
+pub fn value_api(ctx: &mut Ctx<'_>, bytes: &[u8], addr_size: u8) {
+    use gimli::ValueType as T;
+    let mut h: u64 = 0xcbf2_9ce4_8422_2325 ^ addr_size as u64;
+    for b in bytes.iter().take(64) {
+        h = (h ^ *b as u64).wrapping_mul(0x100_0000_01b3);
+    }
+    let mut next = || {
+        h ^= h << 13;
+        h ^= h >> 7;
+        h ^= h << 17;
+        h
+    };
+    const TYPES: [T; 11] = [T::Generic, T::I8, T::U8, T::I16, T::U16, T::I32, T::U32, T::I64, T::U64, T::F32, T::F64];
+    let mut mkv = |next: &mut dyn FnMut() -> u64| -> Value {
+        let t = TYPES[(next() % 11) as usize];
+        let raw = match next() % 8 {
+            0 => 0,
+            1 => 1,
+            2 => u64::MAX,
+            3 => 1 << 63,
+            4 => (1 << 63) - 1,
+            5 => 63 + next() % 4,
+            6 => 1 << (next() % 64),
+            _ => next(),
+        };
+        match t {
+            T::Generic => Value::Generic(raw),
+            T::I8 => Value::I8(if raw == 1 << 63 { i8::MIN } else if raw == (1 << 63) - 1 { i8::MAX } else { raw as i8 }),
+            T::U8 => Value::U8(raw as u8),
+            T::I16 => Value::I16(if raw == 1 << 63 { i16::MIN } else if raw == (1 << 63) - 1 { i16::MAX } else { raw as i16 }),
+            T::U16 => Value::U16(raw as u16),
+            T::I32 => Value::I32(if raw == 1 << 63 { i32::MIN } else if raw == (1 << 63) - 1 { i32::MAX } else { raw as i32 }),
+            T::U32 => Value::U32(raw as u32),
+            T::I64 => Value::I64(raw as i64),
+            T::U64 => Value::U64(raw),
+            T::F32 => Value::F32(match raw % 5 {
+                0 => f32::NAN,
+                1 => f32::INFINITY,
+                2 => -1.5e38,
+                3 => 1.8446744e19,
+                _ => f32::from_bits(raw as u32),
+            }),
+            T::F64 => Value::F64(match raw % 5 {
+                0 => f64::NAN,
+                1 => f64::NEG_INFINITY,
+                2 => 1.8446744073709552e19,
+                3 => -9.223372036854775808e18,
+                _ => f64::from_bits(raw),
+            }),
+        }
+    };
+    let mask = match addr_size {
+        1 => 0xff,
+        2 => 0xffff,
+        4 => 0xffff_ffff,
+        _ => u64::MAX,
+    };
+    for _ in 0..2 {
+        let a = mkv(&mut next);
+        let b = mkv(&mut next);
+        let t = TYPES[(next() % 11) as usize];
+        ev!(ctx, "value_api a={:?} b={:?} t={:?}", a, b, t);
+        ctx.enter("value.api");
+        let _ = a.value_type().bit_size(mask);
+        let _ = a.to_u64(mask);
+        let _ = Value::from_u64(t, next());
+        let _ = a.convert(t, mask);
+        let _ = a.reinterpret(t, mask);
+        let _ = a.abs(mask);
+        let _ = a.neg(mask);
+        let _ = a.not(mask);
+        let _ = a.add(b, mask);
+        let _ = a.sub(b, mask);
+        let _ = a.mul(b, mask);
+        let _ = a.div(b, mask);
+        let _ = a.rem(b, mask);
+        let _ = a.and(b, mask);
+        let _ = a.or(b, mask);
+        let _ = a.xor(b, mask);
+        let _ = a.shl(b, mask);
+        let _ = a.shr(b, mask);
+        let _ = a.shra(b, mask);
+        let _ = a.eq(b, mask);
+        let _ = a.ge(b, mask);
+        let _ = a.gt(b, mask);
+        let _ = a.le(b, mask);
+        let _ = a.lt(b, mask);
+        let _ = a.ne(b, mask);
+        let _ = T::from_encoding(gimli::DwAte((next() % 0x14) as u8), next() % 18);
+        ctx.item();
+    }
+}
+
 pub fn ops<'a, R: Reader<Offset = usize> + 'a>(mk: &dyn Fn(&'a [u8]) -> R, case: &'a Case, ctx: &mut Ctx<'_>) {
     let bytes = case.sec("expr");
     let n = ctx.n_bytes;
@@ -293,4 +391,6 @@ pub fn ops<'a, R: Reader<Offset = usize> + 'a>(mk: &dyn Fn(&'a [u8]) -> R, case:
         ctx.probe("eval_composite_pieces");
     }
     ev!(ctx, "eval_end {:?}", matches!(end, EvalEnd::Complete));
+    // 3. the public Value API called directly
+    value_api(ctx, bytes, enc.address_size);
 }
